@@ -221,6 +221,34 @@ def tlc_trace(module, trace_path, timeout=1800, name=None, xmx='6g', deque=True,
     return res
 
 
+def tlapm_check(main, deps, name=None, timeout=1500, mutate=None, threads=6):
+    """Run the TLA+ proof system on spec/<main>.tla in a scratch copy (no fingerprint cache).  mutate: optional function
+    text -> text applied to the main module (anti-vacuity: the mutated proof must FAIL).  Returns dict(ok, obligations, wall_s)."""
+    name = name or main
+    wd = workdir('tlaps_' + name)
+    shutil.rmtree(wd, ignore_errors=True)
+    os.makedirs(wd)
+    for d in deps:
+        shutil.copy(os.path.join(SPEC, d + '.tla'), wd)
+    txt = open(os.path.join(SPEC, main + '.tla')).read()
+    if mutate:
+        txt = mutate(txt)
+    open(os.path.join(wd, main + '.tla'), 'w').write(txt)
+    t0 = time.time()
+    try:
+        p = subprocess.run(['tlapm', '--threads', str(threads), '--cleanfp', main + '.tla'], cwd=wd, capture_output=True, text=True, timeout=timeout)
+    except subprocess.TimeoutExpired:
+        raise ToolError(f'tlapm {name}: timeout after {timeout}s')
+    out = p.stdout + p.stderr
+    m = re.search(r'All (\d+) obligations? proved', out)
+    res = {'tool': 'tlapm', 'module': main, 'ok': bool(m) and p.returncode == 0, 'obligations': int(m.group(1)) if m else 0,
+           'wall_s': round(time.time() - t0, 1), 'mutated': bool(mutate)}
+    if not res['ok']:
+        res['output_tail'] = out[-1500:]
+    shutil.rmtree(wd, ignore_errors=True)
+    return res
+
+
 def tlc_mech_trace(module, trace_path, timeout=1800, name=None, xmx='6g', cfg=None):
     """Mechanism-level trace validation: the trace spec re-uses the model's own actions (plus bounded silent steps), so
     acceptance is 'some behaviour of the model matches every event'.  Returns dict(matched,total,next,wall_s,tlc_states,
